@@ -258,12 +258,21 @@ def implicit_conservative(check, proj, c):
             continue
         mat, rhs = sv[0]
         bad = None
-        if set(mat.ident) != {-1} or mat.ident[-1] == 0:
-            bad = "the identity part of the matrix is %r, not a non-zero multiple of I/dt" % (mat.ident,)
-        for e in range(NEQ):
-            other = [b for b in rhs[e].form if b[0] not in ("K", "L") or b[-1] != e]
-            if other:
-                bad = "the right-hand side of equation %d contains %s, not only residuals / earlier increments of that equation" % (e, other)
+        # any row scaling D^s of (a/dt*I + b*J) x = r has the same solution: identity part one
+        # monomial a*dt^(s-1), Jacobian rows scaled by dt^s, no column scaling, r scaled by dt^s
+        if len(mat.ident) != 1:
+            bad = "the identity part of the matrix is %r, not one monomial in dt times I" % (mat.ident,)
+        else:
+            (pw, a), = mat.ident.items()
+            sc = pw + 1
+            if mat.jac and (getattr(mat, "rowp", 0) != sc or getattr(mat, "colp", 0) != 0):
+                bad = "the matrix %r is not a row scaling of a/dt*I + b*J" % (mat,)
+            for e in range(NEQ):
+                other = [b for b in rhs[e].form if b[0] not in ("K", "L") or b[-1] != e]
+                if other:
+                    bad = "the right-hand side of equation %d contains %s, not only residuals / earlier increments of that equation" % (e, other)
+                if any(set(pp) != {sc} for b, pp in rhs[e].form.items()):
+                    bad = "the right-hand side of equation %d (%s) is not scaled like the matrix (dt^%d)" % (e, rhs[e], sc)
         n = o["s0"]
         f = o["field"]
         coefs = set()
